@@ -371,7 +371,10 @@ def run(ctx):
         if not gm:
             continue
         l2.write_crate(ctx, crate, gm, "fn main() {}\n", features=["defmt"], with_defmt=True)
-        ok, out = l2.build(ctx, crate, check_only=True, message_format_json=True, timeout=2400)
+        # `cargo build`, not `cargo check`, for the crates that have no type error: the deny-by-default lint
+        # arithmetic_overflow (a constant product of read_all_registers that overflows its type: D22L) is only raised when
+        # code is generated.  The crate of the known type-error classes stops at the type errors either way.
+        ok, out = l2.build(ctx, crate, check_only=(crate == "c19known"), message_format_json=True, timeout=2400)
         hist[crate + "_modules"] = len(gm)
         if crate == "c19clean":
             # the same modules once more with the definitions' DefmtFeature switched on: the `impl defmt::Format` items
@@ -451,7 +454,7 @@ def replay(ctx, path):
         ctx.log("generator now rejects it:", r.get("message"))
         return
     l2.write_crate(ctx, "c19replay", {"r": r["pretty"]}, "fn main() {}\n", features=["defmt"])
-    ok, out = l2.build(ctx, "c19replay", check_only=True)
+    ok, out = l2.build(ctx, "c19replay", check_only=False)
     ctx.log("compiles:", ok)
     if not ok:
         vlib.violation(ctx, {"failing_input": fi, "implementation": out[-1500:]})
